@@ -18,32 +18,32 @@ import (
 )
 
 type Program struct {
-	repo      string
-	fset      *token.FileSet
-	pkgs      map[string]*packages.Package // by import path
-	prog      *ssa.Program
-	spkgs     map[string]*ssa.Package
-	contracts map[string]*Contract // key: pkgpath + "::" + funckey
-	pures     map[string]*PureFunc
-	axioms    []*Axiom
-	lemmas    []*Lemma
-	tables    map[string]*Table // key: pkgpath + "." + global
-	specFiles []*SpecFile
-	heapSorts map[string]*Sort
-	funcs     map[string]*ssa.Function // pkgpath::key -> function
-	ifaceImpl map[string]*types.Pointer
-	module    string
-	loadErrs  []string
-	bindErrs  []string
-	pureDecl  map[string]*pureInfo
-	externs   map[string]*Contract // extern contracts by full name e.g. "fmt.Errorf"
-	modCache  map[*ssa.Function]*modInfo
+	repo           string
+	fset           *token.FileSet
+	pkgs           map[string]*packages.Package // by import path
+	prog           *ssa.Program
+	spkgs          map[string]*ssa.Package
+	contracts      map[string]*Contract // key: pkgpath + "::" + funckey
+	pures          map[string]*PureFunc
+	axioms         []*Axiom
+	lemmas         []*Lemma
+	tables         map[string]*Table // key: pkgpath + "." + global
+	specFiles      []*SpecFile
+	heapSorts      map[string]*Sort
+	funcs          map[string]*ssa.Function // pkgpath::key -> function
+	ifaceImpl      map[string]*types.Pointer
+	module         string
+	loadErrs       []string
+	bindErrs       []string
+	pureDecl       map[string]*pureInfo
+	externs        map[string]*Contract // extern contracts by full name e.g. "fmt.Errorf"
+	modCache       map[*ssa.Function]*modInfo
 	ifaceContracts map[string]*Contract
-	boxed     map[*Term]boxedVal // interface value -> the value it boxes
-	constGlobals map[*ssa.Global]*Term
-	ghostZero map[string][][2]string // type -> (ghost field, initial value) of a freshly allocated object
-	heapVars  map[*Term]heapVarInfo
-	heapTypes map[string]types.Type
+	boxed          map[*Term]boxedVal // interface value -> the value it boxes
+	constGlobals   map[*ssa.Global]*Term
+	ghostZero      map[string][][2]string // type -> (ghost field, initial value) of a freshly allocated object
+	heapVars       map[*Term]heapVarInfo
+	heapTypes      map[string]types.Type
 }
 
 type boxedVal struct {
